@@ -75,6 +75,12 @@ def gen_library(rng, depth):
                 counter[0] += 1
                 loc = new("Loc%d" % counter[0], k)
                 fill_vars(loc, 2)
+                # the nested class may itself inherit (its instance class is extended when the enclosing class is instantiated, and
+                # again per component: inherited equations must still appear once per component)
+                if rng.rand() < 0.6:
+                    b = str(rng.choice(pool))
+                    if not shares_names(lib, loc, b):
+                        lib[loc].extends.append(b)
                 c.comps.append(("n%da" % counter[0], loc))
                 c.comps.append(("n%db" % counter[0], loc))
             level.append(k)
@@ -159,7 +165,10 @@ def text(lib, top):
         for n, t, pf, dim in c.vars:
             lines.append("%s  %s%s %s%s;" % (ind, pf + " " if pf else "", t, n, "[%d]" % dim if dim else ""))
         for n, k in c.comps:
-            lines.append("%s  %s %s;" % (ind, k, n))
+            # a class nested in this one is named by its simple name for the first instance (found through the instance tree,
+            # where it is already an instance class) and by its full name for the second (found through the root)
+            tname = lib[k].name if lib[k].where == key and n.endswith("a") else k
+            lines.append("%s  %s %s;" % (ind, tname, n))
         if c.eqs:
             lines.append(ind + "equation")
             for lhs, rhs in c.eqs:
@@ -248,7 +257,7 @@ def main():
         print(json.dumps({"performed": True, "cases": n, "distinct_nontrivial": nontrivial, "failures": failures[:10],
                           "rule": "random libraries of depth 1-4: a package with a base class, per level 1-2 classes (in the package or at top level) with 1-3 variables (Real/Integer/Boolean or aliases Volt/Count/Flag; "
                                   "parameter/constant/discrete/input/output; arrays), 0-2 extends of earlier classes (chains, multiple, enclosing scope), 0-3 components of earlier classes (repeated instances), optional nested "
-                                  "class used twice, 1-2 equations over own and sub-component variables; Top instantiates the last level. Compared: set of flat names, stored name, base type, prefixes (input/output only on "
+                                  "class (possibly extending an earlier class) used twice, 1-2 equations over own and sub-component variables; Top instantiates the last level. Compared: set of flat names, stored name, base type, prefixes (input/output only on "
                                   "top-level components), dimensions, multiset of renamed equations. non-trivial = distinct text with more than 3 flat variables",
                           "bound": "%d libraries, depth <= 4" % n}))
     else:
